@@ -1,4 +1,5 @@
 CONSTANTS P = 283  A = 0  B = 3  Gx = 1  Gy = 2  N = 277
+          SecLens <- LensQ
           Stage = "toykey"
           SecPfx = {4}  SecXs = {0}  SecYs = {0}  SecLongYs = {0} DerPos <- PosNone  DerExt <- One0  DerExtLen = 0
 SPECIFICATION Spec
